@@ -84,6 +84,33 @@ C07Bad(e) ==
     LET N == e.post.n IN
     UNION {{<<x, f>> : f \in AxisFieldsBad(N, x, e.axes[x])} : x \in Live(N)}
 
+\* value / type accessors: not part of a listed property, reported as notes (property tag "XAPI")
+OptCps(v) == v      \* JSON null is not used: absent values are logged as [false, ...]
+ApiFieldsBad(N, x, o) ==
+    LET chk(name, ok) == IF ok THEN {} ELSE {name}
+        k == N[x].k
+        kids == NormKids(N, x)
+        elems == SelectSeq(kids, LAMBDA y : N[y].k = "elem")
+    IN chk("value_type", o.vt = k)
+       \cup chk("is_* predicates", o.isk = <<k = "doc", k = "elem", k = "text", k = "comm", k = "pi", k = "attr", k = "nsn">>)
+       \cup chk("has_document_parent", o.hdp = (N[x].p # 0 /\ N[N[x].p].k = "doc"))
+       \cup chk("is_document_element", o.ide = (N[x].p # 0 /\ N[N[x].p].k = "doc" /\ k = "elem"))
+       \cup chk("node_name", o.nn = IF k \in {"elem", "attr", "pi"} THEN <<TRUE, N[x].ns, N[x].ln>> ELSE <<FALSE, "", "">>)
+       \cup chk("text_content_str",
+                IF kids = <<>> THEN o.tcs = <<TRUE, <<>>>>
+                ELSE IF Len(kids) = 1 /\ N[kids[1]].k = "text" THEN o.tcs = <<TRUE, N[kids[1]].t>>
+                ELSE o.tcs = <<FALSE, <<>>>>)
+       \cup chk("validate_well_formed_document",
+                o.wfd = IF k # "doc" THEN "notdoc"
+                        ELSE IF \E y \in SeqRange(kids) : N[y].k = "text" /\ \A z \in SeqRange(SubSeq(kids, 1, Pos(kids, y) - 1)) : N[z].k # "text" /\ TRUE
+                             THEN (IF o.wfd \in {"text", "multi", "noelem"} THEN o.wfd ELSE "text")     \* which error is reported first is not specified
+                        ELSE IF Len(elems) = 0 THEN "noelem" ELSE IF Len(elems) > 1 THEN "multi" ELSE "ok")
+       \cup chk("namespace_declarations", [q \in 1..Len(o.decls) |-> <<o.decls[q][1], o.decls[q][2]>>] = [q \in 1..Len(NsKids(N, x)) |-> <<N[NsKids(N, x)[q]].ln, N[NsKids(N, x)[q]].u>>])
+       \cup chk("prefixes", {<<o.pfxmap[q][1], o.pfxmap[q][2]>> : q \in 1..Len(o.pfxmap)} = DeclsAt(N, x))
+
+ApiBad(e) ==
+    LET N == e.post.n IN UNION {{<<x, f>> : f \in ApiFieldsBad(N, x, e.axes[x])} : x \in Live(N)}
+
 C13SvBad(e) ==
     LET N == e.post.n IN {x \in Live(N) : N[x].k # "nsn" /\ e.axes[x].sv # StringValue(N, x)}
 
@@ -149,6 +176,7 @@ Judge(j) ==
     LET e == Rec[j] IN
     IF StructDefect(e.post.n) # "none" THEN Report(j, "TOOL", {<<"state is not structurally valid", StructDefect(e.post.n), 0>>})
     ELSE /\ (Wants(e, "axes") /\ C07Bad(e) # {}) => Report(j, "C07", C07Bad(e))
+         /\ (Wants(e, "axes") /\ ApiBad(e) # {}) => Report(j, "XAPI", ApiBad(e))
          /\ (Wants(e, "axes") /\ C13SvBad(e) # {}) => Report(j, "C13", {<<x, "string_value">> : x \in C13SvBad(e)})
          /\ (Wants(e, "scope") /\ C09Bad(e) # {}) => Report(j, "C09", C09Bad(e))
          /\ (Wants(e, "eq") /\ C13Bad(e) # {}) => Report(j, "C13", C13Bad(e))
